@@ -89,7 +89,7 @@ def run(tier, seed):
             rep.exclude('%s: probe timed out' % name)
             continue
         for j in range(len(nps) - 1):      # interrupt right after evaluation j+1
-            for mode in ('continue', 'save-restore', 'continue-tol0'):
+            for mode in ('continue', 'save-restore', 'continue-tol0', 'continue-container'):
                 lims = {'tol': -1.0, 'min': 1, 'max': (nps[j] - 1) if j > 0 else 0}
                 if mode == 'continue-tol0':
                     # first phase stopped by a positive tolerance, continued with tolerance 0 (never met) and the final budget
@@ -98,7 +98,7 @@ def run(tier, seed):
                     lims = {'tol': float(errs[j]), 'min': 1, 'max': None}
                 case = '%s interrupted after evaluation %d, %s' % (name, j + 1, mode)
                 try:
-                    if mode in ('continue', 'continue-tol0'):
+                    if mode in ('continue', 'continue-tol0', 'continue-container'):
                         S, rec, ret = DP.run_once(c, lims, checks=False)
                         events = rec.events + [DP.ret_event(S, rec, ret, c, lims, with_c05=False)]
                         restored_same = True
@@ -126,10 +126,15 @@ def run(tier, seed):
                             and sch2 == stb['scheme'] and int(combi2.get_total_num_points()) == stb['points']
                     events.append({'k': 'Resume', 'minE': 1, 'maxE': int(final_lims['max'])})
                     cont_tol = 0 if mode == 'continue-tol0' else -1.0
-                    if mode in ('continue', 'continue-tol0'):
+                    if mode in ('continue', 'continue-tol0', 'continue-container'):
                         rec.tol = cont_tol
                     with impl.quiet(), impl.watchdog(240):
-                        ret2 = S['combi'].continue_adaptive_refinement(tol=cont_tol, max_evaluations=final_lims['max'], min_evaluations=1)
+                        if mode == 'continue-container':
+                            # the documented third way to continue: a new performSpatiallyAdaptiv call that is handed the refinement of the stopped run
+                            ret2 = S['combi'].performSpatiallyAdaptiv(c['lmin'], c['lmax'], S['ec'], tol=cont_tol, max_evaluations=final_lims['max'], min_evaluations=1,
+                                                                     print_output=False, refinement_container=S['combi'].refinement)
+                        else:
+                            ret2 = S['combi'].continue_adaptive_refinement(tol=cont_tol, max_evaluations=final_lims['max'], min_evaluations=1)
                     F = final_state(S, ret2)
                 except impl.Timeout:
                     rep.exclude(case + ': timeout')
